@@ -72,12 +72,19 @@ def extra_c20(pid, tier, seed, workdir, known, write_replay):
     specs = [(f, n) for f in ("chain", "chainv", "diamond", "diamondpure", "diamondvoid", "diamondptr", "nested") for n in depths] + [("fanout", n) for n in (8, 64, 200)] + \
             [("chain", 200), ("chainv", 200), ("nestedifs", 14), ("nestedifs", 40)] + \
             [("nestedarr", n) for n in (4, 8, 12, 16, 20, 24)] + [("nesteddeep", n) for n in (16, 17, 32, 64)] + \
-            [("elseif", n) for n in (8, 16, 24, 32, 48, 64)] + [("overrideladder", n) for n in (8, 16, 24, 32, 48)]
+            [("elseif", n) for n in (8, 16, 24, 32, 48, 64)] + [("overrideladder", n) for n in (8, 16, 24, 32, 48)] + \
+            [("switchnest", n) for n in (2, 4, 6, 8, 10, 12, 14)]
     cases = family_cases(specs)
     timeout_s = 20
     results = []
     # option sets: encase (runtime arrays allowed), and for the struct family also the bytemuck switches
     jobs = [(fam, n, line, 4) for fam, n, line in cases] + [(fam + "+bytemuck", n, line, o) for fam, n, line in cases if fam == "nested" for o in (2, 3)]
+    # generation with the REAL formatter on and outputs far above the pipe buffer has to finish as well (option set 96 + 4)
+    bigf = os.path.join(workdir, "bigfmt.cases")
+    write_stream_file([("big", 300, 2)], bigf)
+    for bl in open(bigf):
+        if bl.strip():
+            jobs.append(("big+rustfmt", len(bl), bl.rstrip("\n"), 100))
     with concurrent.futures.ThreadPoolExecutor(max_workers=8) as ex:
         futs = {ex.submit(run_one_case_timed, line, opt, pid, timeout_s): (fam, n, line) for fam, n, line, opt in jobs}
         for fu in concurrent.futures.as_completed(futs):
@@ -581,10 +588,11 @@ def extra_c16(pid, tier, seed, workdir, known, write_replay):
     trials, err = run_faults(big, 0, 1, ["absent", "exit1-after-drain", "real"])
     cov["big_source_fallback_trials"] = len(trials)
     for cid, size, fault, oc, detail, same, th in trials:
-        if not cid.startswith("big:"):
-            continue
+        # the large source, and the harness' own small source full of text that matters to a Rust lexer / pretty printer (quotes,
+        # backslashes, ` :: `, `# [derive`, CR LF): whatever the fallback path does to the module text must not reach the literal
         if oc != "ok" or same == "false":
-            items.append(("c16#big-source-fallback", f"embedded source > 64 KiB, formatter fault '{fault}': outcome {oc} {detail[:100]}, same program as with the formatter off: {same}", cid, True))
+            kind = "big-source-fallback" if cid.startswith("big:") else "source-through-formatter-fault"
+            items.append((f"c16#{kind}", f"embedded source ({'> 64 KiB' if cid.startswith('big:') else size}), formatter fault '{fault}': outcome {oc} {detail[:100]}, same program as with the formatter off: {same}", cid, True))
     if not any(t[0].startswith("big:") for t in trials):
         items.append(("c16#harness-big", "the large embedded source was not run: " + err, "", False))
     # (c) concurrent calls in one process on DIFFERENT large shaders with the formatter on: every result must carry the input of
@@ -606,7 +614,7 @@ def extra_c16(pid, tier, seed, workdir, known, write_replay):
 
 PROPERTY_FAULTS = ["absent", "exit1-after-drain", "exit1-no-read", "kill-self", "kill-before-read", "kill-after-partial-output", "exit1-after-partial-output",
                    "exit0-no-read-empty", "exit0-drain-empty", "slow-ok", "fail-once-partial-then-real", "exit1-noisy-stderr-0", "exit1-noisy-stderr-1",
-                   "exit1-no-read-x6", "kill-before-read-x6", "real-with-RUSTFMT-env", "real-with-RUSTFMT-env-empty", "real-with-RUSTFMT-env-blank", "real-with-RUSTFMT-env-args", "real"]
+                   "exit1-no-read-x6", "kill-before-read-x6", "fail-once-long-then-real-x2", "partial-close-stdout-linger-exit1", "partial-close-stdout-linger-kill", "real-with-RUSTFMT-env", "real-with-RUSTFMT-env-empty", "real-with-RUSTFMT-env-blank", "real-with-RUSTFMT-env-args", "real"]
 
 
 def extra_c19(pid, tier, seed, workdir, known, write_replay):
@@ -729,6 +737,20 @@ def extra_c18(pid, tier, seed, workdir, known, write_replay):
             cov["determinism_big_formatter_summary"] = line[:400]
     if "determinism_big_formatter_summary" not in cov:
         items.append(("determinism#harness-big", "determinism (large, rustfmt on) gave no summary: " + rb.stderr[-300:], "", False))
+    # far more concurrent rustfmt-on calls than the machine has cores (a generator that sheds load must not change what it returns)
+    many = write_stream_file([("fixtures",)], os.path.join(workdir, "many.cases"))
+    lines_many = [l for l in open(many) if l.strip()][:6]
+    open(many, "w").write("".join(lines_many))
+    rm = subprocess.run([os.path.join(BIN, "determinism"), "--cases", many, "--opts", "96,117", "--children", "0", "--threads", str(4 * (os.cpu_count() or 16))],
+                        stdout=subprocess.PIPE, stderr=subprocess.PIPE, text=True)
+    for line in rm.stdout.split("\n"):
+        if line.startswith("(nondeterministic"):
+            t = parse_sexp(line)[0]
+            items.append((f"determinism#formatter-many-threads-{re.sub(r'[0-9]+$', '', sx(t[3]))}", f"case {sx(t[1])} with rustfmt on under {4 * (os.cpu_count() or 16)} concurrent threads: output differs ({sx(t[3])})", sx(t[1]), True))
+        elif line.startswith("(summary"):
+            cov["determinism_many_threads_summary"] = line[:400]
+    if "determinism_many_threads_summary" not in cov:
+        items.append(("determinism#harness-many-threads", "determinism (many threads, rustfmt on) gave no summary: " + rm.stderr[-300:], "", False))
     # a formatter that merely takes long (6 s) must give byte for byte what a fast one gives
     fx = write_stream_file([("fixtures",)], os.path.join(workdir, "slow.cases"))
     trials, err = run_faults(fx, 1, 0, ["real", "slow-6s-ok", "real-with-RUSTFMT-env", "real-with-RUSTFMT-env-empty", "real-with-RUSTFMT-env-blank", "real-with-RUSTFMT-env-args"], timeout=60)
